@@ -521,19 +521,19 @@ theorem ctor_args_not_aliased :
 
 /-- Attribute NAMES that some method assigns on ANOTHER object (`new_kernel.batch_shape = …`): every one audited. -/
 def auditedForeignWrites : List (Nat × String) := [
-  (aid_STAR, "setattr(module, <name>, …) in Module.initialize / hyperparameter loading: the public setter API"),
+  (aid_STAR, "setattr(mod, <name>, …): Module pyro sample loading / to_random_module on the (copied) sub-module; priors.utils re-tying base_dist"),
   (aid__batch_shape, "Kernel.__getitem__ / expand_batch: on the NEW kernel they return"),
   (aid__cached_kernel_inv_root, "InducingPointKernel.__deepcopy__: re-attaches the cache to the copy"),
   (aid__cached_kernel_mat, "InducingPointKernel.__deepcopy__: re-attaches the cache to the copy"),
   (aid__load_strict_shapes, "Module.load_strict_shapes(value): applied to every sub-module; only affects loading"),
-  (aid__memoize_cache, "utils/memoize: the memo table of the object passed in"),
+  (aid__memoize_cache, "utils/memoize: the memo table of the object passed in; _VariationalStrategy.amortized_exact_gp on the strategy it builds"),
   (aid_batch_shape, "Kernel.expand_batch: on the deep-copied kernel it returns"),
-  (aid_distance_module, "legacy slot, always None"),
+  (aid_distance_module, "MultiDeviceKernel: legacy slot of the replicas, set to None"),
   (aid_likelihood, "ExactGP.get_fantasy_model: on the deep-copied model it returns"),
   (aid_mean_init_std, "VariationalStrategy.__call__: set to 0 and restored around the legacy (un-whitened) conversion"),
   (aid_name_prefix, "PyroGP.__init__: through the likelihood's setter"),
   (aid_num_data, "PyroGP.__init__: through the likelihood's setter"),
-  (aid_prediction_strategy, "ExactGP.get_fantasy_model: on the deep-copied model it returns"),
+  (aid_prediction_strategy, "ExactGP.get_fantasy_model / _VariationalStrategy.get_fantasy_model: on the new model they return"),
   (aid_targets, "DirichletClassificationLikelihood.get_fantasy_likelihood: on the copy it returns"),
   (aid_train_inputs, "ExactGP.get_fantasy_model: on the deep-copied model it returns"),
   (aid_transformed_targets, "DirichletClassificationLikelihood.get_fantasy_likelihood: on the copy it returns (fix 875f682)")]
